@@ -51,6 +51,9 @@ type caseT struct {
 	Scheme    int   `json:"scheme"`
 	Format    int   `json:"format"`
 	Shape     int   `json:"shape"` // 0: leaf<-inter<-root, 1: self-signed leaf
+	// Prior > 0: the same verifier instance first verified another signature (scheme/format combination
+	// Prior-1 of the same chain) - the judged verification must behave as on a fresh verifier.
+	Prior int `json:"prior"`
 }
 
 func (c caseT) String() string {
@@ -64,7 +67,11 @@ func (c caseT) String() string {
 	for _, i := range c.List {
 		l = append(l, storeRefs[i])
 	}
-	return fmt.Sprintf("stores{%s} list[%s] scheme=%s format=%s shape=%d", strings.Join(pl, ","), strings.Join(l, ","), []string{"x509", "signingAuthority"}[c.Scheme], []string{"jws", "cose"}[c.Format], c.Shape)
+	prior := "fresh verifier"
+	if c.Prior > 0 {
+		prior = fmt.Sprintf("same verifier verified a %s/%s signature before", []string{"x509", "signingAuthority"}[(c.Prior-1)/2], []string{"jws", "cose"}[(c.Prior-1)%2])
+	}
+	return fmt.Sprintf("stores{%s} list[%s] scheme=%s format=%s shape=%d (%s)", strings.Join(pl, ","), strings.Join(l, ","), []string{"x509", "signingAuthority"}[c.Scheme], []string{"jws", "cose"}[c.Format], c.Shape, prior)
 }
 
 type world struct {
@@ -148,12 +155,18 @@ func (w *world) run(r *hx.Run, c caseT) {
 	// (a listed tsa store switches timestamp verification on, which fails for lack of a countersignature: logged)
 	onlyAuth := trustpolicy.SignatureVerification{VerificationLevel: "strict", Override: map[trustpolicy.ValidationType]trustpolicy.ValidationAction{
 		trustpolicy.TypeAuthenticTimestamp: trustpolicy.ActionLog, trustpolicy.TypeExpiry: trustpolicy.ActionLog, trustpolicy.TypeRevocation: trustpolicy.ActionSkip}}
-	doc := &trustpolicy.OCIDocument{Version: "1.0", TrustPolicies: []trustpolicy.OCITrustPolicy{
-		{Name: "applicable", SignatureVerification: onlyAuth, TrustStores: list, TrustedIdentities: []string{"*"}, RegistryScopes: []string{"reg.io/r"}},
-	}}
+	// the artifact lives in reg.io/team/app; the other statement is scoped to the enclosing and to a nested
+	// repository path (never the artifact's own), and is placed before or after the applicable one
+	applicable := trustpolicy.OCITrustPolicy{Name: "applicable", SignatureVerification: onlyAuth, TrustStores: list, TrustedIdentities: []string{"*"}, RegistryScopes: []string{"reg.io/team/app"}}
+	doc := &trustpolicy.OCIDocument{Version: "1.0", TrustPolicies: []trustpolicy.OCITrustPolicy{applicable}}
 	if len(others) > 0 {
-		doc.TrustPolicies = append(doc.TrustPolicies, trustpolicy.OCITrustPolicy{Name: "other", SignatureVerification: trustpolicy.SignatureVerification{VerificationLevel: "strict"}, TrustStores: others, TrustedIdentities: []string{"*"}, RegistryScopes: []string{"reg.io/other"}},
-			trustpolicy.OCITrustPolicy{Name: "wild", SignatureVerification: trustpolicy.SignatureVerification{VerificationLevel: "strict"}, TrustStores: others, TrustedIdentities: []string{"*"}, RegistryScopes: []string{"*"}})
+		other := trustpolicy.OCITrustPolicy{Name: "other", SignatureVerification: trustpolicy.SignatureVerification{VerificationLevel: "strict"}, TrustStores: others, TrustedIdentities: []string{"*"}, RegistryScopes: []string{"reg.io/team", "reg.io/team/app/sub", "reg.io/team/ap"}}
+		wild := trustpolicy.OCITrustPolicy{Name: "wild", SignatureVerification: trustpolicy.SignatureVerification{VerificationLevel: "strict"}, TrustStores: others, TrustedIdentities: []string{"*"}, RegistryScopes: []string{"*"}}
+		if (len(c.List)+c.Format)%2 == 0 {
+			doc.TrustPolicies = []trustpolicy.OCITrustPolicy{applicable, other, wild}
+		} else {
+			doc.TrustPolicies = []trustpolicy.OCITrustPolicy{wild, other, applicable}
+		}
 	}
 	ok := mocks.AllOK()
 	v, err := verifier.NewVerifierWithOptions(ls, verifier.VerifierOptions{OCITrustPolicy: doc, RevocationCodeSigningValidator: ok})
@@ -162,9 +175,20 @@ func (w *world) run(r *hx.Run, c caseT) {
 		return
 	}
 	env := w.envs[fmt.Sprintf("%d/%d/%d", c.Shape, c.Scheme, c.Format)]
+	if c.Prior > 0 {
+		ps, pf := (c.Prior-1)/2, (c.Prior-1)%2
+		r.Eval(1)
+		_, _ = v.Verify(ctx, w.desc, w.envs[fmt.Sprintf("%d/%d/%d", c.Shape, ps, pf)], notation.VerifierVerifyOptions{ArtifactReference: "reg.io/team/app@" + w.desc.Digest.String(), SignatureMediaType: forge.Formats[pf]})
+		ls.Calls = nil // the call log of the judged verification only
+	}
 	r.Eval(1)
-	outcome, verr := v.Verify(ctx, w.desc, env, notation.VerifierVerifyOptions{ArtifactReference: "reg.io/r@" + w.desc.Digest.String(), SignatureMediaType: forge.Formats[c.Format]})
-	bad := func(key, what string) { r.Violation(key, what+" | "+c.String(), c) }
+	outcome, verr := v.Verify(ctx, w.desc, env, notation.VerifierVerifyOptions{ArtifactReference: "reg.io/team/app@" + w.desc.Digest.String(), SignatureMediaType: forge.Formats[c.Format]})
+	bad := func(key, what string) {
+		if c.Prior > 0 {
+			key += ":after-earlier-verification-on-same-verifier"
+		}
+		r.Violation(key, what+" | "+c.String(), c)
+	}
 	if outcome == nil {
 		bad("nil-outcome", fmt.Sprint(verr))
 		return
@@ -351,6 +375,14 @@ func main() {
 				for s := 0; s < 2; s++ {
 					for f := 0; f < 2; f++ {
 						cases = append(cases, caseT{Placement: pl, List: l, Scheme: s, Format: f, Shape: shape})
+						// histories on one verifier instance: quick = after a signature of the other scheme, thorough = after each of the four
+						if r.Thorough() {
+							for p := 1; p <= 4; p++ {
+								cases = append(cases, caseT{Placement: pl, List: l, Scheme: s, Format: f, Shape: shape, Prior: p})
+							}
+						} else {
+							cases = append(cases, caseT{Placement: pl, List: l, Scheme: s, Format: f, Shape: shape, Prior: 1 + (1-s)*2 + f})
+						}
 					}
 				}
 			}
